@@ -21,12 +21,12 @@ impl<'a> ZodSchemaBuilder<'a> {
         type_structure: &TypeStructure,
         validator_attributes: &Option<ValidatorAttributes>,
     ) -> String {
-        self.render_type(type_structure, validator_attributes, false, false)
+        self.render_type(type_structure, validator_attributes, false, false, false)
     }
 
     /// Build a Zod schema for a parameter (no validators applied)
     pub fn build_param_schema(&self, type_structure: &TypeStructure) -> String {
-        self.render_type(type_structure, &None, true, false)
+        self.render_type(type_structure, &None, true, false, false)
     }
 
     fn render_type(
@@ -35,29 +35,34 @@ impl<'a> ZodSchemaBuilder<'a> {
         validator: &Option<ValidatorAttributes>,
         skip_validation: bool,
         is_record_key: bool,
+        nested: bool,
     ) -> String {
         match ts {
             TypeStructure::Optional(inner) => {
+                // A field or parameter that is an Option may be left out; an Option inside
+                // another type (Vec<Option<T>>, map values, tuple slots) is serialised as null
+                let modifier = if nested { "nullable" } else { "optional" };
                 format!(
-                    "{}.optional()",
-                    self.render_type(inner, validator, false, is_record_key)
+                    "{}.{}()",
+                    self.render_type(inner, validator, false, is_record_key, nested),
+                    modifier
                 )
             }
             TypeStructure::Primitive(prim) => {
                 self.render_primitive(prim, validator, skip_validation, is_record_key)
             }
             TypeStructure::Array(inner) => {
-                let inner_schema = self.render_type(inner, validator, true, false);
+                let inner_schema = self.render_type(inner, validator, true, false, true);
                 let array_schema = format!("z.array({})", inner_schema);
                 self.apply_length_validator(&array_schema, validator, skip_validation)
             }
             TypeStructure::Map { key, value } => {
-                let key_schema = self.render_type(key, validator, true, true);
-                let value_schema = self.render_type(value, validator, true, false);
+                let key_schema = self.render_type(key, validator, true, true, true);
+                let value_schema = self.render_type(value, validator, true, false, true);
                 format!("z.record({}, {})", key_schema, value_schema)
             }
             TypeStructure::Set(inner) => {
-                let inner_schema = self.render_type(inner, validator, true, false);
+                let inner_schema = self.render_type(inner, validator, true, false, true);
                 format!("z.set({})", inner_schema)
             }
             TypeStructure::Tuple(types) => {
@@ -66,13 +71,13 @@ impl<'a> ZodSchemaBuilder<'a> {
                 } else {
                     let type_strs: Vec<String> = types
                         .iter()
-                        .map(|t| self.render_type(t, validator, true, false))
+                        .map(|t| self.render_type(t, validator, true, false, true))
                         .collect();
                     format!("z.tuple([{}])", type_strs.join(", "))
                 }
             }
             TypeStructure::Result(inner) => {
-                let inner_schema = self.render_type(inner, validator, true, false);
+                let inner_schema = self.render_type(inner, validator, true, false, true);
                 format!(
                     "z.union([{}, z.object({{ error: z.string() }})])",
                     inner_schema
